@@ -15,3 +15,40 @@ Theorem tucan_complete :
     tucan canon m1 = Some s -> tucan canon m2 = Some s -> exists pi, SameMol pi m1 m2.
 Proof. exact (@RoundTrip2.tucan_complete). Qed.
 Print Assumptions tucan_complete.
+
+(* ------------------------------------------------------------------------------------------------ *)
+(* The quantifier closed over the readers (Proofs/EndToEnd2.v): the hypotheses wfg / simple / pos_attrs
+   are theorems about every graph the molfile entry point returns (EndToEnd.read_graph_props) and
+   about every graph the reference reader of strings returns (Norm.parsed_graph_wf).  What is left:
+   the texts were accepted, and the oracle returns a bijection (H1).                                  *)
+Require Import Parse Molfile.
+Require V2000 EndToEnd2.
+
+(* Two accepted molfile texts (V2000 or V3000, in any mixture) with the same string: the graphs read
+   are one molecule. *)
+Theorem C02_molfile_texts_complete :
+  forall canon, H1 canon ->
+  forall (s1 s2 : text) (g1 g2 : mol rpay Z) (str : text),
+    V2000.read_molfile s1 = ok g1 -> V2000.read_molfile s2 = ok g2 ->
+    tucan canon g1 = Some str -> tucan canon g2 = Some str -> exists pi, SameMol pi g1 g2.
+Proof. exact (@EndToEnd2.molfile_texts_complete). Qed.
+Print Assumptions C02_molfile_texts_complete.
+
+(* An accepted molfile text and an accepted TUCAN string with the same (normalized) string. *)
+Theorem C02_molfile_text_string_complete :
+  forall canon, H1 canon ->
+  forall (s t0 : text) (g : mol rpay Z) (g' : mol unit unit) (str : text),
+    V2000.read_molfile s = ok g -> ref_parse t0 = inr g' ->
+    tucan canon g = Some str -> tucan canon g' = Some str -> exists pi, SameMol pi g g'.
+Proof. exact (@EndToEnd2.molfile_text_string_complete). Qed.
+Print Assumptions C02_molfile_text_string_complete.
+
+(* With C01 (needs the canonical-form contract H2 as well): for two accepted texts, the first with at
+   least one atom, the strings are equal exactly when the graphs read are one molecule. *)
+Theorem C02_molfile_texts_same_string_iff :
+  forall canon, H1 canon -> H2 canon ->
+  forall (s1 s2 : text) (g1 g2 : mol rpay Z),
+    V2000.read_molfile s1 = ok g1 -> V2000.read_molfile s2 = ok g2 -> atoms g1 <> nil ->
+    (tucan canon g1 = tucan canon g2 <-> exists pi, SameMol pi g1 g2).
+Proof. exact (@EndToEnd2.molfile_texts_same_string_iff). Qed.
+Print Assumptions C02_molfile_texts_same_string_iff.
